@@ -157,7 +157,7 @@ func printExpr(e *Expr) string {
 		for _, k := range e.Args {
 			s += "[" + PrintExpr(k, 1) + "]"
 		}
-		return s
+		return s + e.Post
 	case "bin":
 		l := opLevel[e.Name]
 		left := PrintExpr(e.Args[0], l)
